@@ -457,7 +457,7 @@ def cq_case(prog, ops, trace, info, probe):
 
 
 COQ_IMPORTS = "Machine Harness HH"
-COQ_CHECK = "check_case"
+COQ_CHECK = "check_case_strict"   # check_case and: every observed column is below width (HH.cols_ok)
 COQ_PRELUDE = "From Coq Require Import Uint63."
 
 
